@@ -17,6 +17,14 @@ pub fn timeouts_created() -> usize {
 pub fn last_timeout_ns() -> u64 {
     unsafe { LAST_TIMEOUT_NS }
 }
+pub fn deadline_after(d: Duration) -> u64 {
+    let ns = dur_ns(d);
+    unsafe {
+        LAST_TIMEOUT_NS = ns;
+        TIMEOUTS_CREATED += 1;
+    }
+    now_ns().saturating_add(ns)
+}
 pub fn now_ns() -> u64 {
     unsafe { NOW_NS }
 }
